@@ -39,3 +39,25 @@ func Settle() { time.Sleep(50 * time.Millisecond) }
 
 // Yield is a scheduling point.
 func Yield() { time.Sleep(time.Millisecond) }
+
+type crashSignal struct{}
+
+// Crash stops the run of the code under test at this point (an instance being killed):
+// control returns to the enclosing Try. Deferred functions of the stopped code do not run
+// under the engine (a killed process runs none either).
+func Crash() { panic(crashSignal{}) }
+
+// Try runs fn and reports whether it was stopped by Crash.
+func Try(fn func()) (crashed bool) {
+	defer func() {
+		if r := recover(); r != nil {
+			if _, ok := r.(crashSignal); ok {
+				crashed = true
+				return
+			}
+			panic(r)
+		}
+	}()
+	fn()
+	return false
+}
